@@ -150,7 +150,10 @@ def _run_case_body(ep, seed, n):
     signal.signal(signal.SIGALRM, _on_alarm)
     import logging
     logging.disable(logging.CRITICAL)          # keep the ensure_* warnings off the console
-    base = ep.make(seed, n)
+    try:
+        base = ep.make(seed, n)
+    except Exception as e:  # noqa - building the inputs uses the library itself (sift, transforms): nothing about layouts / side
+        return {'not_constructible': err_kind(e), 'msg': str(e)[:160]}     # effects was evaluated - skipped and tagged
     res = {'mutated': {}, 'layouts': {}, 'rejects': {}, 'short': {}}
 
     def one(tag, inputs, readonly=False):
@@ -303,6 +306,18 @@ def _E():
 
 def _mk_sift(seed, n):
     return dict(X=sig(seed, n), **sift_opts())
+
+
+def dominant(seed, n):
+    """One oscillation carrying nearly all of the energy plus a very weak slow component: the first IMF passes the
+    energy-ratio test of get_next_imf(energy_thresh=...), so the continue flag comes back False"""
+    r = np.random.RandomState(seed)
+    t = np.linspace(0, 1, n)
+    return np.sin(2 * np.pi * r.uniform(9, 14) * t + r.uniform(0, 6)) + 1e-3 * np.sin(2 * np.pi * 1.5 * t)
+
+
+def _mk_mask_arrays(seed, n):
+    return dict(X=sig(seed, n), mask_freqs=np.array([0.2, 0.1, 0.05]), mask_amp=np.array([1.0, 0.8, 0.6]), **sift_opts())
 
 
 def _edges(d):
@@ -479,6 +494,20 @@ def entry_points():
            lambda X, **o: S.mask_sift(X, **every_key(S.mask_sift, dict(max_imfs=3, nphases=4, nprocesses=1), skip=OPTS3), **o), {}, OPTS3, 'options'),
         EP('mask_sift:mask_freqs-array', lambda s, n: dict(X=sig(s, n), mask_freqs=np.array([0.2, 0.1, 0.05]), mask_amp=np.array([1.0, 0.8, 0.6]), **sift_opts()),
            lambda X, mask_freqs, mask_amp, **o: S.mask_sift(X, mask_freqs=mask_freqs, mask_amp=mask_amp, max_imfs=3, nprocesses=1, **o), {}, OPTS3, 'options'),
+        # the optional energy-ratio test of get_next_imf on a signal whose first IMF passes it (continue flag False) in every layout
+        EP('get_next_imf:energy-stop', lambda s, n: dict(X=dominant(s, n)), lambda X: S.get_next_imf(X, energy_thresh=50), {'X': SIFT_X}, (), 'options'),
+        EP('get_next_imf:energy-stop:rilling', lambda s, n: dict(X=dominant(s, n)),
+           lambda X: S.get_next_imf(X, energy_thresh=50, stop_method='rilling'), {'X': dict(accept=['c', 'c11'])}, (), 'options'),
+        # per-IMF mask amplitudes / frequencies given as arrays, in every amplitude mode
+        EP('mask_sift:mask_amp-array:ratio_sig', _mk_mask_arrays,
+           lambda X, mask_freqs, mask_amp, **o: S.mask_sift(X, mask_freqs=mask_freqs, mask_amp=mask_amp, mask_amp_mode='ratio_sig', max_imfs=3, nprocesses=1, **o),
+           {'X': dict(accept=['c'])}, OPTS3, 'options'),
+        EP('mask_sift:mask_amp-array:abs', _mk_mask_arrays,
+           lambda X, mask_freqs, mask_amp, **o: S.mask_sift(X, mask_freqs=mask_freqs, mask_amp=mask_amp, mask_amp_mode='abs', max_imfs=3, nprocesses=1, **o),
+           {}, OPTS3, 'options'),
+        EP('mask_sift:mask_amp-int-array:ratio_sig', cast(_mk_mask_arrays, mask_amp='i8'),
+           lambda X, mask_freqs, mask_amp, **o: S.mask_sift(X, mask_freqs=mask_freqs, mask_amp=mask_amp, mask_amp_mode='ratio_sig', max_imfs=3, nprocesses=1, **o),
+           {}, OPTS3, 'options'),
         EP('get_next_imf:every-option', lambda s, n: dict(X=sig(s, n), envelope_opts=full_stage_opts()['envelope_opts'], extrema_opts=full_stage_opts()['extrema_opts']),
            lambda X, **o: S.get_next_imf(X, **dict(full_stage_opts()['imf_opts'], **o)), {}, ('envelope_opts', 'extrema_opts'), 'options'),
         EP('get_next_imf_mask:every-option', _mk_sift_full,
